@@ -13,7 +13,7 @@ TECHNIQUE = ('effect analysis (barrier oracles read no scaling state), decision 
 EXPLANATION = (
     "That the derivative formulas of the generalised power cone and of the primal barriers (defined through Newton / Wright-omega roots) "
     "are the derivatives of the stated barriers, the "
-    "third-order correction, conjugacy proper (grad f*(s) solves grad f(-g) = -s; only the Newton start point is compared with its "
+    "third-order correction of the generalised power cone, conjugacy proper (grad f*(s) solves grad f(-g) = -s; only the Newton start point is compared with its "
     "sibling) and everything about the generalised power cone's formulas (element-wise loops) are NOT decided. Decided on the MIR of the current tree: (R1) for the "
     "exponential, power and generalised power cones the membership tests, barrier functions and the primal gradient "
     "are functions of their argument and construction-time constants only - they read no field that the scaling "
@@ -34,7 +34,9 @@ EXPLANATION = (
     "a relative step; (R10) degree() of every cone type is its barrier parameter (3, 3, dim1+1, 1, dim, n, 0)."
     " (R11) symbolic differentiation with log / powf as differentiable atoms: for the exponential and power cone d barrier_dual / d z_i = grad_i and d grad_i / d z_j = H_ij exactly (18 rational-function identities)."
     " R6 also: a vector that unit_initialization copies into the other one is final when copied."
-    " (R12) the closure passed to the one-sided Newton iteration as derivative is d/dx of the closure passed as function (power cone; generalised power cone term by term over the fold).")
+    " (R12) the closure passed to the one-sided Newton iteration as derivative is d/dx of the closure passed as function (power cone; generalised power cone term by term over the fold)."
+    " (R13) third-order correction of the exponential and power cone: higher_correction is replayed with the state of eta, the scratch matrix and every local tracked statement by statement; eta is a bilinear form in (u, v) whose 27 coefficients equal 1/2 d^3 f*/dz_i dz_j dz_k exactly."
+    " (R14) the sign tests that decide membership of the power and exponential cone evaluate the defining expressions of K and K* (the dual power cone test is the same power product as the dual barrier).")
 ASSUMPTIONS = ['rustc MIR construction and trait resolution are correct',
                'R4: identities over the reals; log(a b) = log a + log b and omega + log omega = x for omega = wright_omega(x)']
 
@@ -927,6 +929,466 @@ def newton_derivative(rep, F, E, tag):
     R.guard(body)
 
 
+# ---------------------------------------------------------------------------
+# third-order correction: eta = 1/2 * D^3 f*(z)[u, v]  (state-tracking replay of higher_correction)
+# ---------------------------------------------------------------------------
+import copy as _copy
+
+
+def _log_atom(defs, v):
+    """differentiable atom for log(v); for a single-monomial argument log(1/m) = -log(m) is normalised to one representative"""
+    sign = 1
+    if len(v) == 1:
+        inv = P_inv(v)
+        if str(P_key(inv)) < str(P_key(v)):
+            v, sign = inv, -1
+    atom = ('log', P_key(v))
+    defs[atom] = ('log', [v])
+    return ('S', P_atom(atom) if sign == 1 else P_neg(P_atom(atom)))
+
+
+class _Replay(LFSplit):
+    """LFSplit over a copy of the function in which every named local stays symbolic (var:name); the replay keeps the value each
+    local / array element / matrix entry has *at that point of the path* in `st`, keyed by canonical text.  3-vectors are ('V3', [p0, p1, p2])."""
+
+    def __init__(self, F, E, g, atoms, reg):
+        LFSplit.__init__(self, F, E, g, atoms, reg)
+        self.alias = {}
+
+    def norm(self, k):
+        for _ in range(4):
+            k2 = k
+            for a, t in self.alias.items():
+                k2 = _re.sub(_re.escape(a) + r'(?![\w])', t, k2)
+            if k2 == k:
+                break
+            k = k2
+        return k
+
+    def vec(self, st, sym):
+        s_ = sym
+        while True:
+            if s_[0] in ('ref', 'deref', 'cast'):
+                s_ = s_[1]
+            elif s_[0] == 'call' and last_seg(s_[1].split('#')[0]) in ('index', 'index_mut', 'deref', 'deref_mut', 'as_slice', 'as_mut_slice') and (len(s_[2]) == 1 or 'RangeFull' in canon(s_[2][1])):
+                s_ = s_[2][0]
+            elif s_[0] == 'index' and 'RangeFull' in canon(s_[2]):
+                s_ = s_[1]
+            else:
+                break
+        k = self.norm(canon(s_))
+        v = st.get(k)
+        return (k, v[1]) if v is not None and v[0] == 'V3' else (k, None)
+
+    def ev(self, st, sym, depth=0):
+        s_ = self._strip(sym)
+        k = self.norm(canon(s_))
+        if k in st and st[k][0] != 'V3':
+            return st[k]
+        m = _re.fullmatch(r'(.*)\[(\d)_usize\]', k)
+        if m and m.group(1) in st and st[m.group(1)][0] == 'V3':
+            return ('S', st[m.group(1)][1][int(m.group(2))])
+        return LFSplit.ev(self, st, sym, depth)
+
+    def call_value(self, st, s, depth):
+        nm = last_seg(s[1].split('#')[0])
+        args = s[2]
+        if nm == 'dot' and len(args) == 2:
+            (ka, a), (kb, b) = self.vec(st, args[0]), self.vec(st, args[1])
+            if a is not None and b is not None:
+                tot = {}
+                for x, y in zip(a, b):
+                    tot = P_add(tot, P_mul(x, y))
+                return ('S', tot)
+            return None
+        if nm in ('index', 'index_mut') and len(args) == 2:
+            kb, b = self.vec(st, args[0])
+            i = canon(args[1])
+            m = _re.fullmatch(r'(\d)_usize', i)
+            if b is not None and m:
+                return ('S', b[int(m.group(1))])
+            m2 = _re.fullmatch(r'tuple\((\d)_usize, (\d)_usize\)', i)
+            if m2:
+                kk = '%s(%s,%s)' % (self.norm(canon(self._strip(args[0]))), m2.group(1), m2.group(2))
+                return st.get(kk)
+        return LFSplit.call_value(self, st, s, depth)
+
+
+def third_order_correction(rep, F, E, tag):
+    """"the third-order correction equals one half of the third derivative of the dual barrier contracted with the Newton-scaled slack
+    direction and the dual direction": higher_correction is replayed along its successful path with the state of every local, of eta,
+    of the scratch matrix and vectors tracked statement by statement (eta is read back while it is being built); u = H^-1 ds and v enter as
+    free symbols.  eta is first shown to be a bilinear form in (u, v) (every monomial carries one u_j and one v_k); its 27 coefficients are then compared, as exact
+    rational-function identities, with 1/2 d^3 f*/dz_i dz_j dz_k obtained by differentiating barrier_dual three times."""
+    R = rep.rule('C14.R13', 'third-order correction of the exponential and power cone: eta = 1/2 D^3 f*(z)[u, v] exactly (state-tracking replay + symbolic differentiation)')
+
+    def body():
+        n = 0
+        for K in ('ExponentialCone', 'PowerCone'):
+            f0 = F.one(name='higher_correction', adt=K)
+            fb = F.one(name='barrier_dual', adt=K)
+            g = _copy.copy(f0)
+            g._symcache = {}
+            named = set()
+            for l in list(f0.defs.keys()):
+                try:
+                    nm_ = f0.local_name(l)
+                except Exception:
+                    nm_ = None
+                if nm_ and not f0.is_param(l):
+                    named.add(l)
+            g.partial = set(f0.partial) | named
+            reg, holder = {}, {'defs': {}}
+
+            def atoms(k, s_, holder=holder):
+                m = _re.fullmatch(r'self\.z\[(\d)_usize\]', k)
+                if m:
+                    return ('S', P_atom('z' + m.group(1)))
+                m = _re.fullmatch(r'arg4\[(\d)_usize\]', k)
+                if m:
+                    return ('S', P_atom('v' + m.group(1)))
+                if k == 'self.α':
+                    return ('S', P_atom('alpha'))
+                if s_[0] == 'call':
+                    nm = last_seg(s_[1].split('#')[0])
+                    if nm in ('logsafe', 'ln', 'powf'):
+                        I_ = holder['I']
+                        vals = [I_.ev(holder['st'], a_) for a_ in s_[2]]
+                        if all(v is not None and v[0] == 'S' for v in vals):
+                            if nm != 'powf':
+                                return _log_atom(holder['defs'], vals[0][1])
+                            atom = ('pow',) + tuple(P_key(v[1]) for v in vals)
+                            holder['defs'][atom] = ('pow', [v[1] for v in vals])
+                            return ('S', P_atom(atom))
+                return None
+            I = _Replay(F, E, g, atoms, reg)
+            holder['I'] = I
+            leaf = None
+            for val, ret, ev, tr in Walker(g, cut_loops=True, local_stores=True).leaves():
+                if ret[0] == 's' and any('cholesky_3x3_explicit_factor' in k and v == 1 for k, v in val.items()):
+                    leaf = (val, ret, ev, tr)
+            if not R.check(leaf is not None, 'success-path|%s%s' % (K, tag), 'no successful path of %s::higher_correction found' % K, f0.loc()):
+                continue
+            st = {'arg4': ('V3', [P_atom('v%d' % i) for i in range(3)]), 'self.z': ('V3', [P_atom('z%d' % i) for i in range(3)]),
+                  'arg2': ('V3', [P_atom('eta_in%d' % i) for i in range(3)])}
+            holder['st'] = st
+            problems = []
+
+            def setvec(k, lst):
+                st[k] = ('V3', lst)
+            for e in leaf[2]:
+                if e[0] == 'assign':
+                    name = 'var:' + e[1]
+                    src = e[4]
+                    if isinstance(src, dict):          # statement
+                        rv = src['rv']
+                        if rv['k'] == 'ref':
+                            I.alias[name] = I.norm(canon(I._strip(g.sym_place(rv['p']))))
+                            continue
+                        sym = g.sym_rvalue(rv)
+                        if rv['k'] == 'agg' or canon(sym).startswith('['):
+                            setvec(name, [{} for _ in range(3)])
+                            continue
+                        v = I.ev(st, sym)
+                    else:                               # call destination
+                        c = src
+                        csym = ('call', c.callee.target_key or '<indirect>', tuple(g.sym_operand(a) for a in c.args), e[3])
+                        if c.callee.name == 'zeros':
+                            continue
+                        v = I.ev(st, csym)
+                    if v is not None and v[0] == 'S':
+                        st[name] = v
+                    elif e[1] not in ('H', 'z', 'issuccess', 'cholH'):
+                        problems.append('local %s not evaluated' % e[1])
+                elif e[0] == 'store':
+                    pl = e[4]['p']
+                    tk = I.norm(canon(I._strip(g.sym_place(pl))))
+                    v = I.ev(st, g.sym_rvalue(e[4]['rv']))
+                    m = _re.fullmatch(r'(.*)\[(\d)_usize\]', tk)
+                    m2 = _re.fullmatch(r'index_mut\((.*), tuple\((\d)_usize, (\d)_usize\)\)', tk)
+                    if v is None or v[0] != 'S':
+                        problems.append('store to %s not evaluated' % tk[:40])
+                    elif m and m.group(1) in st and st[m.group(1)][0] == 'V3':
+                        st[m.group(1)][1][int(m.group(2))] = v[1]
+                    elif m2:
+                        st['%s(%s,%s)' % (m2.group(1), m2.group(2), m2.group(3))] = v
+                    else:
+                        problems.append('store to %s not modelled' % tk[:40])
+                elif e[0] == 'call':
+                    c = e[4]
+                    nm = c.callee.name
+                    a = [g.sym_operand(x) for x in c.args]
+                    if nm == 'cholesky_3x3_explicit_solve':
+                        k_, _ = I.vec(st, a[1])
+                        setvec(k_, [P_atom('u%d' % i) for i in range(3)])
+                    elif nm == 'mul' and 'DenseMatrixSym3' in (c.callee.key or ''):
+                        mk = I.norm(canon(I._strip(a[0])))
+                        ko, _ = I.vec(st, a[1])
+                        kx, x = I.vec(st, a[2])
+                        if x is None:
+                            problems.append('mul operand %s unknown' % kx[:30])
+                            continue
+                        out = []
+                        for i in range(3):
+                            tot = {}
+                            for j in range(3):
+                                ent = st.get('%s(%d,%d)' % (mk, min(i, j), max(i, j)))
+                                if ent is None:
+                                    problems.append('matrix entry (%d,%d) of %s unset' % (min(i, j), max(i, j), mk[:20]))
+                                    ent = ('S', {})
+                                tot = P_add(tot, P_mul(ent[1], x[j]))
+                            out.append(tot)
+                        setvec(ko, out)
+                    elif nm == 'scale' and (c.callee.trait or '').endswith('VectorMath'):
+                        k_, x = I.vec(st, a[0])
+                        cv = I.ev(st, a[1])
+                        if x is None or cv is None:
+                            problems.append('scale not evaluated')
+                        else:
+                            setvec(k_, [P_mul(p_, cv[1]) for p_ in x])
+                    elif nm == 'axpby' and (c.callee.trait or '').endswith('VectorMath'):
+                        k_, y = I.vec(st, a[0])
+                        kx, x = I.vec(st, a[2])
+                        av, bv = I.ev(st, a[1]), I.ev(st, a[3])
+                        if None in (y, x, av, bv):
+                            problems.append('axpby not evaluated')
+                        else:
+                            setvec(k_, [P_add(P_mul(av[1], xi), P_mul(bv[1], yi)) for xi, yi in zip(x, y)])
+                    elif nm in ('add_assign', 'sub_assign', 'mul_assign'):
+                        tk = I.norm(canon(I._strip(a[0])))
+                        m = _re.fullmatch(r'(.*)\[(\d)_usize\]', tk)
+                        v = I.ev(st, a[1])
+                        if m and m.group(1) in st and st[m.group(1)][0] == 'V3' and v is not None:
+                            cur = st[m.group(1)][1][int(m.group(2))]
+                            st[m.group(1)][1][int(m.group(2))] = P_add(cur, v[1], 1 if nm == 'add_assign' else -1) if nm != 'mul_assign' else P_mul(cur, v[1])
+                        elif tk in st and v is not None and st[tk][0] == 'S':
+                            st[tk] = ('S', P_add(st[tk][1], v[1], 1 if nm == 'add_assign' else -1) if nm != 'mul_assign' else P_mul(st[tk][1], v[1]))
+                        else:
+                            problems.append('%s on %s not modelled' % (nm, tk[:30]))
+            if not R.check(not problems, 'replay|%s%s' % (K, tag), '%s::higher_correction could not be replayed: %s' % (K, problems[:4]), f0.loc()):
+                continue
+            eta = st['arg2'][1]
+            # the barrier, with the same atoms
+            hb = {'defs': holder['defs']}
+
+            def atoms_b(k, s_, hb=hb):
+                m = _re.fullmatch(r'arg2\[(\d)_usize\]', k)
+                if m:
+                    return ('S', P_atom('z' + m.group(1)))
+                if k == 'self.α':
+                    return ('S', P_atom('alpha'))
+                if s_[0] == 'call':
+                    nm = last_seg(s_[1].split('#')[0])
+                    if nm in ('logsafe', 'ln', 'powf'):
+                        vals = [hb['I'].ev({}, a_) for a_ in s_[2]]
+                        if all(v is not None and v[0] == 'S' for v in vals):
+                            if nm != 'powf':
+                                return _log_atom(hb['defs'], vals[0][1])
+                            atom = ('pow',) + tuple(P_key(v[1]) for v in vals)
+                            hb['defs'][atom] = ('pow', [v[1] for v in vals])
+                            return ('S', P_atom(atom))
+                return None
+            Ib = LFSplit(F, E, fb, atoms_b, reg)
+            hb['I'] = Ib
+            lb = [x for x in Ib.run({}, local_stores=True) if x[1][0] != 'diverge']
+            bval = Ib.ev(lb[0][2], fb.sym_local(0)) if len(lb) == 1 else None
+            if not R.check(bval is not None and bval[0] == 'S', 'barrier|%s%s' % (K, tag), 'barrier_dual of %s not evaluated' % K, fb.loc()):
+                continue
+            try:
+                defs = hb['defs']
+                D1 = [P_diff(bval[1], 'z%d' % i, defs, reg) for i in range(3)]
+                D2 = [[P_diff(D1[i], 'z%d' % j, defs, reg) for j in range(3)] for i in range(3)]
+                UV = {'u0', 'u1', 'u2', 'v0', 'v1', 'v2'}
+                # (a) eta is a bilinear form in (u, v): every monomial carries exactly one u_j and one v_k, and no registered
+                #     reciprocal / root depends on u or v - so it is determined by its values on the nine basis pairs
+                def uses_uv(p_):
+                    return any(isinstance(a_, str) and a_ in UV for m_ in p_ for a_, e_ in m_)
+                bil = all(not uses_uv(v_) for v_ in reg.values() if isinstance(v_, dict))
+                for i in range(3):
+                    for m_, c_ in eta[i].items():
+                        du = sum(e_ for a_, e_ in m_ if isinstance(a_, str) and a_.startswith('u') and a_ in UV)
+                        dv = sum(e_ for a_, e_ in m_ if isinstance(a_, str) and a_.startswith('v') and a_ in UV)
+                        if du != 1 or dv != 1:
+                            bil = False
+                if not R.check(bil, 'bilinear|%s%s' % (K, tag), '%s::higher_correction: eta is not a bilinear form in (u, v)' % K, f0.loc()):
+                    continue
+                half = RatF(P_const(Fraction(1, 2)))
+                for i in range(3):
+                    for j in range(3):
+                        for k_ in range(3):
+                            coeff = {}
+                            for m_, c_ in eta[i].items():
+                                if ('u%d' % j, Fraction(1)) in m_ and ('v%d' % k_, Fraction(1)) in m_:
+                                    m2 = tuple(x for x in m_ if not (isinstance(x[0], str) and x[0] in UV))
+                                    coeff[m2] = coeff.get(m2, 0) + c_
+                            a_, b_ = sorted((i, j))
+                            d3 = P_diff(D2[a_][b_], 'z%d' % k_, defs, reg)
+                            lhs = to_ratf(coeff, reg)
+                            rhs = to_ratf(d3, reg) * half
+                            diff = lhs + rhs * RatF(P_const(-1))
+                            ok = diff.is_zero()
+                            n += 1
+                            if not ok:
+                                flipped = (lhs + rhs).is_zero()
+                                R.bad('tensor|%s|%d%d%d%s' % (K, i, j, k_, tag),
+                                      '%s::higher_correction: the coefficient of u%d v%d in eta[%d] minus 1/2 d3f*/dz%d dz%d dz%d is not identically zero%s (numerator %s)' % (
+                                          K, j, k_, i, i, j, k_, ': it equals -1/2 of the tensor entry, sign flipped' if flipped else '', P_fmt(diff.n)[:120]), f0.loc())
+                            else:
+                                R.ok('tensor|%s|%d%d%d%s' % (K, i, j, k_, tag))
+            except _NoDerivative as ex:
+                R.bad('differentiable|%s%s' % (K, tag), 'cannot differentiate barrier_dual of %s (%s)' % (K, ex), fb.loc())
+        R.check(n >= 54, 'count' + tag, 'only %d tensor entries of the third-order correction decided' % n)
+
+    R.guard(body)
+
+
+# ---------------------------------------------------------------------------
+# membership tests = cone definitions (power products / log expressions)
+# ---------------------------------------------------------------------------
+
+def _pp_canon(items):
+    """canonical form of a power product prod base_i^expo_i: bases that are single monomials are normalised like log arguments"""
+    out = {}
+    for base, expo in items:
+        if len(base) == 1:
+            inv = P_inv(base)
+            if str(P_key(inv)) < str(P_key(base)):
+                base, expo = inv, P_neg(expo)
+        k = P_key(base)
+        out[k] = P_add(out.get(k, {}), expo)
+    return {k: P_key(v) for k, v in out.items() if v}
+
+
+def _pp_merge(poly, ppdefs):
+    """products of power-product atoms inside one monomial are merged into a single power-product atom"""
+    out = {}
+    for mono, c in poly.items():
+        items, rest = [], []
+        for a, e in mono:
+            if isinstance(a, tuple) and a[0] == 'pp' and a in ppdefs:
+                items += [(b_, _P_scale(x_, e)) for b_, x_ in ppdefs[a]]
+            else:
+                rest.append((a, e))
+        if items:
+            atom = ('pp', tuple(sorted(_pp_canon(items).items(), key=str)))
+            ppdefs[atom] = items
+            rest.append((atom, Fraction(1)))
+        m2 = tuple(sorted(rest, key=lambda z: str(z[0])))
+        out[m2] = out.get(m2, 0) + c
+    return {m_: c_ for m_, c_ in out.items() if c_ != 0}
+
+
+def membership_definitions(rep, F, E, tag):
+    """"the membership predicates agree with the cone and dual-cone definitions": the quantity whose sign decides membership is evaluated
+    symbolically.  Power cone: exp(sum c_i log b_i) - x3^2 is the power product prod b_i^c_i - x3^2; for the dual cone it must be the
+    product (z1/alpha)^(2 alpha) (z2/(1-alpha))^(2-2 alpha) that the dual barrier uses, for the primal cone s1^(2 alpha) s2^(2-2 alpha).
+    Exponential cone: z2 - z1 - z1 log(-z3/z1) (dual) and s2 log(s3/s2) - s1 (primal)."""
+    R = rep.rule('C14.R14', 'membership tests of the power and exponential cone evaluate the defining expressions of K and K* (same power product as the dual barrier)')
+
+    def body():
+        def evaluator(f, prefix):
+            reg, holder = {}, {'defs': {}, 'pp': {}}
+
+            def atoms(k, s_):
+                m = _re.fullmatch(r'arg2\[(\d)_usize\]', k)
+                if m:
+                    return ('S', P_atom('%s%s' % (prefix, m.group(1))))
+                if k == 'self.α':
+                    return ('S', P_atom('alpha'))
+                if s_[0] == 'call':
+                    nm = last_seg(s_[1].split('#')[0])
+                    I_ = holder['I']
+                    if nm in ('logsafe', 'ln'):
+                        v = I_.ev({}, s_[2][0])
+                        if v is not None and v[0] == 'S':
+                            return _log_atom(holder['defs'], v[1])
+                    if nm == 'powf':
+                        vals = [I_.ev({}, a_) for a_ in s_[2]]
+                        if all(v is not None and v[0] == 'S' for v in vals):
+                            atom = ('pp', tuple(sorted(_pp_canon([(vals[0][1], vals[1][1])]).items(), key=str)))
+                            holder['pp'][atom] = [(vals[0][1], vals[1][1])]
+                            return ('S', P_atom(atom))
+                    if nm == 'exp':
+                        v = I_.ev({}, s_[2][0])
+                        if v is None or v[0] != 'S':
+                            return None
+                        items = []
+                        for mono, c in v[1].items():
+                            logs = [(a, e) for a, e in mono if isinstance(a, tuple) and a[0] == 'log']
+                            if len(logs) != 1 or logs[0][1] != 1:
+                                return None
+                            rest = {tuple(x for x in mono if x != logs[0]): c}
+                            items.append((holder['defs'][logs[0][0]][1][0], rest))
+                        atom = ('pp', tuple(sorted(_pp_canon(items).items(), key=str)))
+                        holder['pp'][atom] = items
+                        return ('S', P_atom(atom))
+                return None
+            I = LFSplit(F, E, f, atoms, reg)
+            holder['I'] = I
+            return I, holder
+
+        def decisive(f):
+            # the comparison whose operand contains a transcendental call
+            for c in f.calls:
+                if c.callee.name in ('lt', 'gt', 'le', 'ge') and len(c.args) == 2:
+                    for a in c.args:
+                        t = canon(f.sym_operand(a))
+                        if 'logsafe(' in t or 'exp(' in t or 'powf(' in t:
+                            return f.sym_operand(a)
+            return None
+        n = 0
+        al = P_atom('alpha')
+        two_al = P_mul(P_const(2), al)
+        two_m = P_add(P_const(2), two_al, -1)
+        # power cone
+        fb = F.one(name='barrier_dual', adt='PowerCone')
+        Ib, hb = evaluator(fb, 'x')
+        bpp = None
+        for c in fb.calls:
+            if c.callee.name == 'logsafe':
+                t = fb.sym_operand(c.args[0])
+                if 'powf(' in canon(t):
+                    v = Ib.ev({}, t)
+                    if v is not None and v[0] == 'S':
+                        bpp = _pp_merge(v[1], hb['pp'])
+        for nm, want_pp in (('is_dual_feasible', None), ('is_primal_feasible', [(P_atom('x0'), two_al), (P_atom('x1'), two_m)])):
+            f = F.one(name=nm, adt='PowerCone')
+            I, h = evaluator(f, 'x')
+            sym = decisive(f)
+            v = I.ev({}, sym) if sym is not None else None
+            if not R.check(v is not None and v[0] == 'S', 'evaluated|PowerCone|%s%s' % (nm, tag), 'the deciding quantity of PowerCone::%s could not be evaluated' % nm, f.loc()):
+                continue
+            n += 1
+            v = (v[0], _pp_merge(v[1], h['pp']))
+            if want_pp is None:
+                R.check(bpp is not None and v[1] == bpp, 'definition|PowerCone|%s%s' % (nm, tag),
+                        'PowerCone::is_dual_feasible tests the sign of %s, but the dual barrier is the logarithm of %s: the membership test accepts a different set than the dual cone '
+                        '{(z1/alpha)^(2 alpha) (z2/(1-alpha))^(2-2 alpha) > z3^2}' % (P_fmt(v[1])[:150], P_fmt(bpp)[:150] if bpp else None), f.loc())
+            else:
+                atom = ('pp', tuple(sorted(_pp_canon(want_pp).items(), key=str)))
+                want = _pp_merge(P_add(P_atom(atom), P_mul(P_atom('x2'), P_atom('x2')), -1), {atom: want_pp})
+                R.check(v[1] == want, 'definition|PowerCone|%s%s' % (nm, tag),
+                        'PowerCone::is_primal_feasible tests the sign of %s, expected s1^(2 alpha) s2^(2-2 alpha) - s3^2' % P_fmt(v[1])[:150], f.loc())
+        # exponential cone
+        for nm, build in (('is_dual_feasible', lambda L: P_add(P_add(P_atom('x1'), P_atom('x0'), -1), P_mul(P_atom('x0'), L), -1)),
+                          ('is_primal_feasible', lambda L: P_add(P_mul(P_atom('x1'), L), P_atom('x0'), -1))):
+            f = F.one(name=nm, adt='ExponentialCone')
+            I, h = evaluator(f, 'x')
+            sym = decisive(f)
+            v = I.ev({}, sym) if sym is not None else None
+            if not R.check(v is not None and v[0] == 'S', 'evaluated|ExponentialCone|%s%s' % (nm, tag), 'the deciding quantity of ExponentialCone::%s could not be evaluated' % nm, f.loc()):
+                continue
+            n += 1
+            arg = P_mul(P_neg(P_atom('x2')), P_inv(P_atom('x0'))) if nm == 'is_dual_feasible' else P_mul(P_atom('x2'), P_inv(P_atom('x1')))
+            L = _log_atom({}, arg)[1]
+            want = build(L)
+            R.check(v[1] == want, 'definition|ExponentialCone|%s%s' % (nm, tag),
+                    'ExponentialCone::%s tests the sign of %s, expected %s' % (nm, P_fmt(v[1])[:150], 'z2 - z1 - z1 log(-z3/z1)' if nm == 'is_dual_feasible' else 's2 log(s3/s2) - s1'), f.loc())
+        R.check(n >= 4, 'count' + tag, 'only %d membership tests decided' % n)
+
+    R.guard(body)
+
+
 def run(ctx, rep, tier):
     for cfg in (CONFIGS_THOROUGH if tier == 'thorough' else CONFIGS):
         F = ctx.facts(cfg)
@@ -944,6 +1406,9 @@ def run(ctx, rep, tier):
         barrier_parameters(rep, F, tag)
         barrier_derivatives(rep, F, E, tag)
         newton_derivative(rep, F, E, tag)
+        membership_definitions(rep, F, E, tag)
+        if cfg == 'default':
+            third_order_correction(rep, F, E, tag)   # ~30 s: once, the cone code is the same in every configuration
         R6 = rep.rule('C14.R6', 'unit initialisation overwrites both vectors of every cone wholly (the documented start point is reached on every solve, not only the first)')
         from . import c05
         R6.guard(lambda: c05.unit_init_must_write(R6, F, tag))
